@@ -1153,6 +1153,26 @@ fn cmd_codec_random(args: &[String]) {
     let _ = std::fs::remove_dir_all(&dir);
 }
 
+
+/// args: n  -> JSON list of n small contents, ascending by BLAKE3, the smallest hash starting with a 0 nibble
+fn cmd_gen_contents(args: &[String]) {
+    let n: usize = args[0].parse().unwrap();
+    let mut cands: Vec<(String, String)> = (0..400).map(|k| { let t = format!("version {k}\n"); (vlib_hex(blake3::hash(t.as_bytes()).as_bytes()), t) }).collect();
+    cands.sort();
+    // first: a hash with a leading zero nibble; then spread the rest over the range
+    let mut out = vec![cands.iter().find(|c| c.0.starts_with('0') && !c.0.starts_with("00")).unwrap().clone()];
+    let step = cands.len() / (n + 1);
+    let start = cands.iter().position(|c| *c == out[0]).unwrap();
+    for i in 1..n { out.push(cands[(start + i * step).min(cands.len() - 1)].clone()); }
+    out.sort();
+    println!("{}", serde_json::to_string(&out.iter().map(|(h, t)| json!({"hex": h, "text": t})).collect::<Vec<_>>()).unwrap());
+}
+fn vlib_hex(b: &[u8]) -> String { b.iter().map(|x| format!("{x:02x}")).collect() }
+/// args: file...  -> blake3 hex of each file, one per line
+fn cmd_b3(args: &[String]) {
+    for f in args { println!("{}", vlib_hex(blake3::hash(&std::fs::read(f).unwrap_or_default()).as_bytes())); }
+}
+
 fn main() {
     std::panic::set_hook(Box::new(|_| {}));
     let args: Vec<String> = std::env::args().skip(1).collect();
@@ -1164,6 +1184,8 @@ fn main() {
         "patch-cases" => cmd_patch_cases(rest),
         "patch-random" => cmd_patch_random(rest),
         "codec-cases" => cmd_codec_cases(rest),
+        "gen-contents" => cmd_gen_contents(rest),
+        "b3" => cmd_b3(rest),
         "codec-random" => cmd_codec_random(rest),
         x => { eprintln!("unknown subcommand {x}"); std::process::exit(2) }
     }
